@@ -20,15 +20,21 @@ class Emitted(object):
         return {v for v, _ in p.Endogenous} | {v for v, _ in p.Lagged} | {v for v, _ in p.Exogenous} | {v for v, _ in p.Decoration}
 
 
-def emit(ctx, maxtime=0, reduce=False):
-    """Model.main() (real), horizon 0 so that no iteration is involved; returns the emitted system."""
+def emit(ctx, maxtime=0, reduce=False, runner='main'):
+    """Model.main() (real), horizon 0 so that no iteration is involved; returns the emitted system.
+    runner='steps': the step-wise runner the graphical front end uses (Model._GetSteps / _RunAllSteps: codes, aliases, equations, cash flows,
+    exogenous, aliases again, final equations, solve) instead of main()."""
     m = ctx.model
     m.MaxTime = maxtime
     err = None
     with warnings.catch_warnings():
         warnings.simplefilter('ignore')
         try:
-            m.main()
+            if runner == 'steps':
+                m._GetSteps()
+                m._RunAllSteps()
+            else:
+                m.main()
         except Exception as e:   # outcome, recorded by the caller
             err = e
     text = m.FinalEquations or ''
